@@ -65,8 +65,10 @@ func (p *Program) genVC(con *Contract, sorts map[string]string) (vc *VC, err err
 		params = append(params, Val{T: n, S: s, Typ: prm.Type()})
 	}
 	se := fc.specEnv(con.PkgPath, entry, entry)
+	fc.paramVars = map[string]Val{}
 	for i, prm := range fn.Params {
 		se.vars[prm.Name()] = params[i]
+		fc.paramVars[prm.Name()] = params[i]
 	}
 	// package axioms
 	for _, ax := range p.Cons.Axioms[con.PkgPath] {
@@ -94,6 +96,7 @@ func (p *Program) genVC(con *Contract, sorts map[string]string) (vc *VC, err err
 		vc.assert(t)
 	}
 	nPre := len(vc.asserts)
+	vc.nPre = nPre
 	if err := fc.execBody(entry, params); err != nil {
 		return vc, err
 	}
